@@ -82,6 +82,16 @@ def trees(draw):
         p = parent + (name,)
         if p not in entries:
             entries[p] = 'f'
+    if draw(st.integers(0, 19)) == 0:
+        # an entry whose name reads like a home directory
+        parent = draw(st.sampled_from(dirs))
+        name = draw(st.sampled_from(['~', '~root']))
+        if parent + (name,) not in entries:
+            if draw(st.booleans()):
+                entries[parent + (name,)] = 'd'
+                entries[parent + (name, 'a.c')] = 'f'
+            else:
+                entries[parent + (name,)] = 'f'
     link = None
     if len(dirs) > 2 and draw(st.integers(0, 5)) == 0:
         target = draw(st.sampled_from(dirs[1:]))
@@ -484,7 +494,44 @@ def shape(case):
             case['cache'], min(len(case['tree']['entries']) // 4, 4)]
 
 
+KF_TILDE = 'find/tilde-entry'
+
+
+def has_tilde_entry(case):
+    return any(c != os.path.expanduser(c) for p, _ in case['tree']['entries']
+               for c in p.split('/'))
+
+
 def prop_find(rec):
+    inner = _prop_find(rec)
+
+    def prop(case):
+        if not has_tilde_entry(case):
+            return inner(case)
+        if rec.is_open(KF_TILDE):
+            rec.excluded()
+            return
+        old_home = os.environ.get('HOME')
+        try:
+            # (keep a stray walk of "the home directory" inside a scratch dir)
+            with sandbox.scratch('c11h') as home:
+                sandbox.write_file(os.path.join(home, 'intruder.c'), 'x\n')
+                os.environ['HOME'] = home
+                try:
+                    inner(case)
+                finally:
+                    if old_home is None:
+                        os.environ.pop('HOME', None)
+                    else:
+                        os.environ['HOME'] = old_home
+        except Violation as v:
+            raise Violation(KF_TILDE, 'a directory entry named like a home '
+                            'directory (`~`, `~user`) is replaced by that '
+                            'home directory: ' + v.message, case)
+    return prop
+
+
+def _prop_find(rec):
     def prop(case):
         from bfg9000.builtins.find import FindResult
         found, must_extra, dontcare, entries = model(case)
@@ -658,6 +705,8 @@ def prop_glob(rec):
         g = PathGlob(Path(pat, Root.srcdir), typ)
         entries = {(): True}
         for p, k in case['tree']['entries']:
+            if any(c != os.path.expanduser(c) for c in p.split('/')):
+                continue    # (the harness builds these Paths from strings)
             entries[tuple(p.split('/'))] = (k == 'd')
         labs = set()
         if comps.count('**') >= 2:
